@@ -215,3 +215,62 @@ func c09Product() []string {
 	}
 	return out
 }
+
+// ---- C04: invocations, recursion, closures (each over the call paths: arity 0-6 and variadic) ----
+func c04Invocations() []string {
+	var out []string
+	params := []string{"", "p1", "p1, p2", "p1, p2, p3", "p1, p2, p3, p4", "p1, p2, p3, p4, p5", "p1, p2, p3, p4, p5, p6", "p1, rest..."}
+	args := func(i int, first string) string {
+		n := i
+		if i == 7 {
+			n = 3
+		}
+		var a []string
+		for k := 0; k < n; k++ {
+			if k == 0 {
+				a = append(a, first)
+			} else {
+				a = append(a, fmt.Sprint(k))
+			}
+		}
+		return strings.Join(a, ", ")
+	}
+	for i, ps := range params {
+		n := "p1"
+		if i == 0 {
+			n = "depth"
+		}
+		pre := ""
+		if i == 0 {
+			pre = "depth = 3\n"
+		}
+		dec := args(i, n+" - 1")
+		if i == 0 {
+			dec = ""
+		}
+		step := ""
+		if i == 0 {
+			step = "depth = depth - 1; "
+		}
+		// recursion using a plainly assigned local after the recursive call
+		out = append(out, pre+"func r("+ps+") { t = "+n+"; if "+n+" > 0 { "+step+"r("+dec+") }; probe(t); return t }\nprobe(r("+args(i, "3")+"))")
+		// a local read before it is assigned, in the second call of the same function value
+		out = append(out, "func g("+ps+") { probe(loc ?? \"unset\"); loc = 5; var v = 6; return loc }\ng("+args(i, "1")+"); g("+args(i, "2")+"); probe(loc ?? \"no-loc\"); probe(v ?? \"no-v\")")
+		// closure factory called twice: independent captured scopes
+		out = append(out, "func mk("+ps+") { c = 0; return func() { c = c + 1; return c } }\nf = mk("+args(i, "1")+"); g = mk("+args(i, "1")+")\nprobe(f()); probe(f()); probe(g()); probe(f()); probe(c ?? \"no-c\")")
+		// parameters shadow outer names and do not leak
+		out = append(out, "p1 = \"outer\"; x = 1\nfunc h("+ps+") { x = 2; var y = 3; p1 = \"inner\"; return p1 }\nprobe(h("+args(i, "9")+")); probe(p1); probe(x); probe(y ?? \"no-y\")")
+		// re-entrant call through a callback argument
+		out = append(out, "func outer2(cb) { t = \"o\"; cb(); probe(t) }\nfunc inner2("+ps+") { t = \"i\"; probe(t) }\nouter2(func() { inner2("+args(i, "1")+") }); probe(t ?? \"no-t\")")
+	}
+	// closure created in a block that has ended, called later; loop variable capture; module function
+	out = append(out,
+		"fs = []\nfor i in [1, 2, 3] { var k = i * 10; fs += func() { k = k + 1; return k } }\nprobe(fs[0]()); probe(fs[0]()); probe(fs[2]()); probe(k ?? \"no-k\")",
+		"if true { var hidden = 1; peek = func() { hidden = hidden + 1; return hidden } }\nprobe(peek()); probe(peek()); probe(hidden ?? \"gone\")",
+		"module M { v = 1; func get() { return v }; func set(n) { v = n } }\nM.set(5); probe(M.get()); probe(v ?? \"no-v\"); v = 9; probe(M.get())",
+		"a = 1\nfunc up() { a = a + 1; var b = a; return b }\nprobe(up()); probe(up()); probe(a); probe(b ?? \"no-b\")",
+		"try { throw \"x\" } catch err { var inner = 1; probe(err) }\nprobe(err ?? \"no-err\"); probe(inner ?? \"no-inner\")",
+		"for k, v in {\"a\": 1} { var z = v }\nprobe(k ?? \"no-k\"); probe(v ?? \"no-v\"); probe(z ?? \"no-z\")",
+		"func fact(n) { if n < 2 { return 1 }; m = n; r = fact(n - 1); return m * r }\nprobe(fact(5)); probe(m ?? \"no-m\")")
+	return out
+}
